@@ -5,32 +5,38 @@ Import ListNotations.
 
 Section Sys.
 Variable sf : key -> sid.
+Variable ns : N.
+(* AK: what the caller guarantees about the key list of a Lock; KP: what then holds for the sorted list *)
+Variable AK : list key -> Prop.
+Variable KP : list key -> Prop.
+Hypothesis KP_nil : KP [].
+Hypothesis AK_KP : forall ks, AK ks -> KP (sort_keys ks).
 Notation holderK := (holderK sf).
 Notation maxK := (maxK sf).
-Notation inv := (inv sf).
+Notation inv := (inv sf KP).
 
 Definition running (c : spc) (i : lid) : bool := match c with SRun j _ => Nat.eqb j i | _ => false end.
 Definition vrole (s : state) (i : lid) : role :=
   match pc s i with
   | TNew => RNew | TAcq => RAcq
   | TWait => if running (sch s) i then RAcq else RWait
-  | TDone => RDone | TUnl => RUnl | TRel => RRel
+  | TDone => RDone | TUnl => RUnl | TRel => RRel | TDrop => RDone
   end.
-Definition sched_wl (c : spc) : list lid := match c with SIdle => [] | SRel _ wl => wl | SWake wl => wl | SRun _ wl => wl end.
+Definition sched_wl (c : spc) : list lid := match c with SIdle | STrig => [] | SRel _ wl => wl | SWake wl => wl | SRun _ wl => wl end.
 Definition vrel (c : spc) : option lid := match c with SRel i _ => Some i | _ => None end.
 
-Definition Inv (s : state) : Prop :=
+Definition Inv2 (s : state) : Prop :=
   inv (lat s) (vrole s) (sched_wl (sch s)) (chan s) (vrel (sch s)) (started s) /\
   (forall j wl, sch s = SRun j wl -> pc s j = TWait).
+Definition Inv (s : state) : Prop := Inv2 s /\ (forall i, pc s i = TDrop -> closed (gl s) = true).
 
-(* distinct keys per Lock: what txn.go passes (mutation keys of a memdb) *)
-Definition allowed (l : label) : Prop := match l with LStart _ ks _ => NoDup ks | _ => True end.
+Definition allowed (l : label) : Prop := match l with LStart _ ks _ => AK ks | _ => True end.
 Inductive reachable : state -> Prop :=
 | r_init : reachable init_state
-| r_step s l s' : reachable s -> allowed l -> exec sf s l = Some s' -> reachable s'.
+| r_step s l s' : reachable s -> allowed l -> exec sf ns s l = Some s' -> reachable s'.
 
 Lemma Inv_init : Inv init_state.
-Proof. split; [apply inv_init | discriminate]. Qed.
+Proof. split; [split; [apply inv_init; auto | discriminate] | discriminate]. Qed.
 
 Lemma vrole_frame s s' i :
   (forall x, x <> i -> pc s' x = pc s x) -> (forall x, x <> i -> running (sch s') x = running (sch s) x) ->
@@ -73,14 +79,14 @@ Proof.
   assert (LK0 : locks L0 = locks L) by apply mr_locks.
   assert (K0 : key_at (locks L0 i) = Some k) by (rewrite LK0; auto).
   assert (PRE0 : acq_pre L0 rl wl wl' rel i) by (unfold acq_pre in *; rewrite LK0; auto).
-  destruct (acquire_core_spec sf L0 i k L' r K0 A (i_q _ _ _ _ _ _ _ I0)) as [EF Q'].
+  destruct (acquire_core_spec sf L0 i k L' r K0 A (i_q _ _ _ _ _ _ _ _ I0)) as [EF Q'].
   destruct r.
   - eapply inv_acq_success; eauto.
   - eapply inv_acq_locked; eauto.
   - eapply inv_acq_stale; eauto.
 Qed.
 
-Lemma Inv_step s l s' : Inv s -> allowed l -> exec sf s l = Some s' -> Inv s'.
+Lemma Inv2_step s l s' : Inv2 s -> allowed l -> exec sf ns s l = Some s' -> Inv2 s'.
 Proof.
   intros [I R2] AL EX. destruct l; simpl in EX.
   - (* LStart *)
@@ -99,7 +105,7 @@ Proof.
     assert (NR : running (sch s) i = false).
     { destruct (sch s) eqn:E; auto. simpl. destruct (Nat.eqb_spec j i); auto. subst. rewrite (R2 _ _ eq_refl) in P. discriminate. }
     assert (LT : lacq (locks (lat s) i) < length (lkeys (locks (lat s) i))).
-    { pose proof (i_role _ _ _ _ _ _ _ I i) as X. rewrite RI in X. tauto. }
+    { pose proof (i_role _ _ _ _ _ _ _ _ I i) as X. rewrite RI in X. tauto. }
     split.
     + eapply acquire_step; eauto.
       * left. split; auto.
@@ -108,13 +114,20 @@ Proof.
         destruct r; auto. destruct (complete (locks L' i)); auto.
     + simpl. intros j wl E. specialize (R2 j wl E). rewrite set_pc_other; auto. congruence.
   - (* LUnlock *)
-    destruct (pc s i) eqn:P; try discriminate. inversion EX; subst s'; clear EX. simpl.
+    destruct (pc s i) eqn:P; try discriminate.
     assert (RI : vrole s i = RDone) by (unfold vrole; rewrite P; auto).
-    split.
-    + eapply inv_unlock; eauto. intros x.
-      rewrite (vrole_frame s _ i) by (simpl; auto using set_pc_other).
-      destruct (Nat.eqb_spec x i); auto. unfold vrole; simpl. rewrite set_pc_same. auto.
-    + simpl. intros j wl E. specialize (R2 j wl E). rewrite set_pc_other; auto. congruence.
+    destruct (closed (gl s)).
+    + inversion EX; subst s'; clear EX. simpl. split.
+      * eapply inv_ext_role; [apply inv_commit; exact I|]. intros x.
+        rewrite (vrole_frame s _ i) by (simpl; auto using set_pc_other).
+        destruct (Nat.eqb_spec x i); auto. subst. rewrite RI. unfold vrole; simpl. rewrite set_pc_same. auto.
+      * simpl. intros j wl E. specialize (R2 j wl E). rewrite set_pc_other; auto. congruence.
+    + destruct (Nat.ltb (length (chan s)) lock_chan_size); try discriminate.
+      inversion EX; subst s'; clear EX. simpl. split.
+      * eapply inv_unlock; eauto. intros x.
+        rewrite (vrole_frame s _ i) by (simpl; auto using set_pc_other).
+        destruct (Nat.eqb_spec x i); auto. unfold vrole; simpl. rewrite set_pc_same. auto.
+      * simpl. intros j wl E. specialize (R2 j wl E). rewrite set_pc_other; auto. congruence.
   - (* LPop *)
     destruct (sch s) eqn:SC; try discriminate. destruct (chan s) as [|i rest] eqn:CH; try discriminate.
     simpl in I. destruct (lacq (locks (lat s) i)) eqn:AQ; inversion EX; subst s'; clear EX; simpl.
@@ -122,19 +135,19 @@ Proof.
       rewrite (vrole_frame s _ i) by (simpl; auto using set_pc_other; rewrite SC; auto).
       destruct (Nat.eqb_spec x i); auto. unfold vrole; simpl. rewrite set_pc_same. auto.
     + split; [|discriminate].
-      assert (E : forall x, vrole {| lat := lat s; pc := pc s; chan := rest; sch := SRel i []; started := started s |} x = vrole s x).
+      assert (E : forall x, vrole (mkSt (lat s) (pc s) rest (SRel i []) (started s) (mkGlue (closed (gl s)) (lastrec (gl s)) (counter (gl s)) (rtasks (gl s)) i)) x = vrole s x).
       { intros x. unfold vrole; simpl. rewrite SC. reflexivity. }
       eapply inv_ext_role; [apply inv_pop_rel; [exact I | simpl; rewrite AQ; lia] | exact E].
   - (* LRel *)
-    destruct (sch s) as [|i wl|wl|j wl] eqn:SC; try discriminate.
+    destruct (sch s) as [|i wl|wl|j wl|] eqn:SC; try discriminate.
     destruct (release_slot sf (lat s) i) as [L' r] eqn:RS. simpl in I.
-    destruct (i_rel _ _ _ _ _ _ _ I i eq_refl) as (RI & NC & POS).
+    destruct (i_rel _ _ _ _ _ _ _ _ I i eq_refl) as (RI & NC & POS).
     destruct (lacq (locks (lat s) i)) as [|a] eqn:AQ; [lia|].
     assert (exists k, nth_error (lkeys (locks (lat s) i)) a = Some k) as [k K].
     { destruct (nth_error (lkeys (locks (lat s) i)) a) eqn:E; eauto. apply nth_error_None in E.
-      pose proof (i_acq _ _ _ _ _ _ _ I i). lia. }
-    destruct (rel_pre_facts sf _ _ _ _ _ _ _ _ I AQ K) as (_ & _ & HK & _ & _ & NIW & _).
-    destruct (release_slot_spec sf _ _ _ _ _ _ AQ K HK RS (i_q _ _ _ _ _ _ _ I)) as (EF & Q' & MM & GG).
+      pose proof (i_acq _ _ _ _ _ _ _ _ I i). lia. }
+    destruct (rel_pre_facts sf KP _ _ _ _ _ _ _ _ I AQ K) as (_ & _ & HK & _ & _ & NIW & _).
+    destruct (release_slot_spec sf _ _ _ _ _ _ AQ K HK RS (i_q _ _ _ _ _ _ _ _ I)) as (EF & Q' & MM & GG).
     assert (LA : lacq (locks L' i) = a).
     { inversion EF as [l1 _ _ _ LL | w rest l1 m WIN _ _ _ _ _ ST NST]; subst.
       - rewrite LL. unfold l1, upd_lock. rewrite Nat.eqb_refl. auto.
@@ -146,33 +159,33 @@ Proof.
     rewrite LA in EX.
     assert (ROLE : forall pc' sch', (forall x, x <> i -> pc' x = pc s x) -> (forall x, running sch' x = false) ->
               pc' i = match a with O => TRel | _ => TUnl end ->
-              forall x L0 c0 st0, vrole (mkSt L0 pc' c0 sch' st0) x = if Nat.eqb x i then rel_role a else vrole s x).
-    { intros pc' sch' P1 P2 P3 x L0 c0 st0. unfold vrole; simpl. destruct (Nat.eqb_spec x i).
+              forall x L0 c0 st0 g0, vrole (mkSt L0 pc' c0 sch' st0 g0) x = if Nat.eqb x i then rel_role a else vrole s x).
+    { intros pc' sch' P1 P2 P3 x L0 c0 st0 g0. unfold vrole; simpl. destruct (Nat.eqb_spec x i).
       - subst x. rewrite P3. destruct a; auto.
       - rewrite P1, P2 by auto. rewrite SC. simpl. destruct (pc s x); auto. }
     assert (PI : pc s i = TUnl).
     { unfold vrole in RI. destruct (pc s i); try discriminate; auto. destruct (running (sch s) i); discriminate. }
     destruct r as [|w|]; [| |discriminate].
-    + assert (I2 := inv_rel_none sf _ _ _ _ _ _ _ _ _ _ I AQ K EF Q' MM GG (fun x => eq_refl)).
-      destruct a; inversion EX; subst s'; clear EX; unfold Inv; cbn [lat pc chan sch started]; (split; [|try discriminate; intros j0 wl0 E; try (destruct wl; discriminate)]).
+    + assert (I2 := inv_rel_none sf KP _ _ _ _ _ _ _ _ _ _ I AQ K EF Q' MM GG (fun x => eq_refl)).
+      destruct a; inversion EX; subst s'; clear EX; unfold Inv2; cbn [lat pc chan sch started]; (split; [|try discriminate; intros j0 wl0 E; try (destruct wl; discriminate)]).
       * rewrite sched_wl_next, vrel_next. eapply inv_ext_role; [exact I2|].
         intros x. apply ROLE; auto using set_pc_other, set_pc_same, running_next.
       * eapply inv_ext_role; [exact I2|]. intros x. apply ROLE; auto.
-    + assert (I2 := inv_rel_wake sf _ _ _ _ _ _ _ _ _ _ _ I AQ K EF Q' MM GG (fun x => eq_refl)).
-      destruct a; inversion EX; subst s'; clear EX; unfold Inv; cbn [lat pc chan sch started]; (split; [|try discriminate; intros j0 wl0 E; try (destruct wl; discriminate)]).
+    + assert (I2 := inv_rel_wake sf KP _ _ _ _ _ _ _ _ _ _ _ I AQ K EF Q' MM GG (fun x => eq_refl)).
+      destruct a; inversion EX; subst s'; clear EX; unfold Inv2; cbn [lat pc chan sch started]; (split; [|try discriminate; intros j0 wl0 E; try (destruct wl; discriminate)]).
       * rewrite sched_wl_next, vrel_next. eapply inv_ext_role; [exact I2|].
         intros x. apply ROLE; auto using set_pc_other, set_pc_same, running_next.
       * eapply inv_ext_role; [exact I2|]. intros x. apply ROLE; auto.
   - (* LWake *)
-    destruct (sch s) as [|i wl|wl|j wl] eqn:SC; try discriminate.
+    destruct (sch s) as [|i wl|wl|j wl|] eqn:SC; try discriminate.
     + destruct wl as [|j wl].
       * inversion EX; subst s'; clear EX. split; [|discriminate]. simpl in *.
         eapply inv_ext_role; [exact I|]. intros x. unfold vrole; simpl. rewrite SC. auto.
       * simpl in I.
-        destruct (i_wl _ _ _ _ _ _ _ I j (or_introl eq_refl)) as (RJ & NS).
+        destruct (i_wl _ _ _ _ _ _ _ _ I j (or_introl eq_refl)) as (RJ & NS).
         destruct (vrole_wait _ _ RJ) as (PJ & _).
         destruct (lstale (locks (lat s) j)) eqn:ST.
-        -- inversion EX; subst s'; clear EX. unfold Inv; cbn [lat pc chan sch started]. split; [|intros j0 wl0 E; destruct wl; simpl in E; discriminate].
+        -- inversion EX; subst s'; clear EX. unfold Inv2; cbn [lat pc chan sch started]. split; [|intros j0 wl0 E; destruct wl; simpl in E; discriminate].
            rewrite sched_wl_next, vrel_next. eapply inv_wake_stale; eauto. intros x.
            rewrite (vrole_frame s _ j) by (simpl; auto using set_pc_other; intros; rewrite running_next, SC; auto).
            destruct (Nat.eqb_spec x j); auto. unfold vrole; simpl. rewrite set_pc_same. auto.
@@ -186,7 +199,7 @@ Proof.
                          match r with ASuccess => if complete (locks L' j) then RDone else RAcq | ALocked => RWait | AStale => RDone end
                          else vrole s x) -> inv L' rl' wl (chan s) None (started s)).
            { intros rl' R'. eapply acquire_step; eauto. }
-           destruct r; [destruct (complete (locks L' j)) eqn:CP|..]; unfold Inv; cbn [lat pc chan sch started];
+           destruct r; [destruct (complete (locks L' j)) eqn:CP|..]; unfold Inv2; cbn [lat pc chan sch started];
              (split; [|try (intros j0 wl0 E; destruct wl; simpl in E; discriminate)]).
            ++ rewrite sched_wl_next, vrel_next. apply G. intros x.
               rewrite (vrole_frame s _ j) by (simpl; auto using set_pc_other; intros; rewrite running_next, SC; auto).
@@ -205,7 +218,7 @@ Proof.
       simpl in I. pose proof (R2 _ _ eq_refl) as PJ.
       assert (RJ : vrole s j = RAcq) by (unfold vrole; rewrite PJ, SC; simpl; rewrite Nat.eqb_refl; auto).
       assert (LT : lacq (locks (lat s) j) < length (lkeys (locks (lat s) j))).
-      { pose proof (i_role _ _ _ _ _ _ _ I j) as X. rewrite RJ in X. tauto. }
+      { pose proof (i_role _ _ _ _ _ _ _ _ I j) as X. rewrite RJ in X. tauto. }
       inversion EX; subst s'; clear EX. unfold sched_acq.
       destruct (acquire_slot sf (lat s) j) as [L' r] eqn:A.
       assert (PRE : acq_pre (lat s) (vrole s) wl wl None j) by (left; auto).
@@ -215,7 +228,7 @@ Proof.
       { intros rl' R'. eapply acquire_step; eauto. }
       assert (OTH : forall y, y <> j -> running (sch s) y = false).
       { intros y NY. rewrite SC. simpl. destruct (Nat.eqb_spec j y); congruence. }
-      destruct r; [destruct (complete (locks L' j)) eqn:CP|..]; unfold Inv; cbn [lat pc chan sch started];
+      destruct r; [destruct (complete (locks L' j)) eqn:CP|..]; unfold Inv2; cbn [lat pc chan sch started];
         (split; [|try (intros j0 wl0 E; destruct wl; simpl in E; discriminate)]).
       * rewrite sched_wl_next, vrel_next. apply G. intros x.
         rewrite (vrole_frame s _ j) by (simpl; auto using set_pc_other; intros; rewrite running_next, OTH; auto).
@@ -230,10 +243,38 @@ Proof.
       * rewrite sched_wl_next, vrel_next. apply G. intros x.
         rewrite (vrole_frame s _ j) by (simpl; auto using set_pc_other; intros; rewrite running_next, OTH; auto).
         destruct (Nat.eqb_spec x j); auto. unfold vrole; simpl. rewrite set_pc_same. auto.
+  - (* LTrig *)
+    destruct (sch s) eqn:SC; try discriminate. inversion EX; subst s'; clear EX. simpl in *.
+    split; [|discriminate]. eapply inv_ext_role; [exact I|]. intros x. unfold vrole; simpl. rewrite SC. auto.
+  - (* LClose *)
+    destruct (closed (gl s)); try discriminate. inversion EX; subst s'; clear EX. simpl. split; auto.
+  - (* LRecTask *)
+    destruct (nth_error (rtasks (gl s)) n) as [[t sl]|]; try discriminate.
+    inversion EX; subst s'; clear EX. simpl. split; auto.
+    eapply inv_ext_role; [apply inv_recycle; exact I|]. intros x. reflexivity.
   - (* LRecycle *)
     inversion EX; subst s'; clear EX. simpl. split; auto.
     eapply inv_ext_role; [apply inv_recycle; exact I|]. intros x. reflexivity.
 Qed.
+
+Lemma closed_trigger l g : closed (trigger l g) = closed g.
+Proof. unfold trigger. destruct (N.ltb _ _); auto. destruct (_ || _); auto. Qed.
+
+Lemma drop_step s l s' :
+  (forall i, pc s i = TDrop -> closed (gl s) = true) -> exec sf ns s l = Some s' ->
+  forall i, pc s' i = TDrop -> closed (gl s') = true.
+Proof.
+  intros D EX i. destruct l; simpl in EX; unfold sched_acq in EX;
+  repeat (match type of EX with
+          | context [match ?x with _ => _ end] => destruct x eqn:?
+          | context [if ?x then _ else _] => destruct x eqn:?
+          end; try discriminate);
+  inversion EX; subst s'; simpl; try rewrite closed_trigger; eauto;
+  unfold set_pc; try (destruct (Nat.eqb i _) eqn:?; try discriminate; eauto); eauto.
+Qed.
+
+Lemma Inv_step s l s' : Inv s -> allowed l -> exec sf ns s l = Some s' -> Inv s'.
+Proof. intros [I2 D] AL EX. split; [eapply Inv2_step; eauto | eapply drop_step; eauto]. Qed.
 
 Lemma reachable_Inv s : reachable s -> Inv s.
 Proof. induction 1; [apply Inv_init | eapply Inv_step; eauto]. Qed.
